@@ -662,11 +662,12 @@ class Relocation:
         data = token.encode()
         return data
 
-    def can_shrink(self, sym_value, reloc_value):
+    def can_shrink(self, sym_value, reloc_value, data=None):
         """Test if this relocation can shrink during the relaxation phase.
 
         Override this method to enable linker relaxation the relocation
-        subtype.
+        subtype. The data argument holds the bytes of the instruction
+        at the relocation site, when the caller has them at hand.
         """
         return False
 
